@@ -1,12 +1,13 @@
 #!/usr/bin/env python3
-"""Keep round-2 seeded changes from /tmp/m2/out-Cxx/n according to the batch logs: usage keep_round2.py <log>..."""
+"""Keep seeded changes of a round from $MROOT/out-Cxx/n (default /tmp/m2) according to the batch logs: usage keep_round2.py <log>..."""
 import glob, json, os, re, shutil, subprocess, sys
-notes = json.load(open('/tmp/m2/notes.json')) if os.path.exists('/tmp/m2/notes.json') else {}
+ROOT = os.environ.get('MROOT', '/tmp/m2')
+notes = json.load(open(ROOT + '/notes.json')) if os.path.exists(ROOT + '/notes.json') else {}
 for log in sys.argv[1:]:
     txt = open(log).read()
     for m in re.finditer(r'== (C\d\d) mutant (\d)\nrc=(\d+) wall=\d+s\n(\d+)\n((?:VIOLATION[^\n]*\n|OK[^\n]*\n|KNOWN[^\n]*\n)*)demo_clean=(\d+) demo_patched=(\d+) cpptest_with_patch=(\d+)', txt):
         prop, n, rc, nviol, lines, dc, dp, ct = m.groups()
-        src = '/tmp/m2/out-%s/%s' % (prop, n)
+        src = ROOT + '/out-%s/%s' % (prop, n)
         if not os.path.isdir(src):
             continue
         if not (dc == '0' and dp != '0' and ct == '0'):
@@ -14,7 +15,7 @@ for log in sys.argv[1:]:
             continue
         existing = [int(os.path.basename(d).split('-')[1]) for d in glob.glob('/verif/seeded/%s-*' % prop)]
         key = '%s:%s' % (prop, n)
-        done = json.load(open('/tmp/m2/kept.json')) if os.path.exists('/tmp/m2/kept.json') else {}
+        done = json.load(open(ROOT + '/kept.json')) if os.path.exists(ROOT + '/kept.json') else {}
         if key in done:
             continue
         sid = '%s-%d' % (prop, max(existing + [0]) + 1)
@@ -28,4 +29,4 @@ for log in sys.argv[1:]:
         if os.path.exists(src + '/build_demo.sh'):
             shutil.copy(src + '/build_demo.sh', '/verif/seeded/%s/' % sid)
         done[key] = sid
-        json.dump(done, open('/tmp/m2/kept.json', 'w'))
+        json.dump(done, open(ROOT + '/kept.json', 'w'))
